@@ -9298,13 +9298,13 @@ pub mod verif_hooks_router {
 	use super::*;
 	use bitcoin::secp256k1::SecretKey;
 
-	/// [`compute_fees`](super::compute_fees).
-	pub fn compute_fees(amount_msat: u64, channel_fees: RoutingFees) -> Option<u64> {
+	/// The fee for routing `amount_msat` over a channel with `channel_fees`, `None` on overflow.
+	pub fn fees_for_amount(amount_msat: u64, channel_fees: RoutingFees) -> Option<u64> {
 		super::compute_fees(amount_msat, channel_fees)
 	}
 
-	/// [`compute_fees_saturating`](super::compute_fees_saturating).
-	pub fn compute_fees_saturating(amount_msat: u64, channel_fees: RoutingFees) -> u64 {
+	/// As [`fees_for_amount`], saturating to `u64::MAX`.
+	pub fn fees_for_amount_saturating(amount_msat: u64, channel_fees: RoutingFees) -> u64 {
 		super::compute_fees_saturating(amount_msat, channel_fees)
 	}
 
